@@ -47,6 +47,8 @@ FLOORS = {"quick": {"evaluations": 3000, "deferreds_audited": 8000, "postloss_su
 def gen_case(rnd, boot_in_run=False, max_cmds=6):
     from .c01 import gen_session
     cmds = gen_session(rnd, max_cmds=max_cmds)
+    for c in cmds:
+        c.pop("api", None)          # C03 judges firing/exactly-once, not line content
     if boot_in_run:
         for c in cmds:
             if c["when"][0] == "bytes":
